@@ -79,7 +79,11 @@ def xChain (j : Json) : XChain :=
   | "ids" => .chain (jNats j "ids")
   | e => .badPem e
 
-def xTbl := Nuts.C18.xValidatorTable
+/-- the validator table the driver runs with is the one REGENERATED from validation.go (empty when not understood) -/
+def xTbl : List ((Bytes × Bytes) × XAttr) :=
+  match tableOfFacts Nuts.Facts.C18.x509ValidatorRows with
+  | some t => t
+  | none => []
 
 def showRes {α} (f : α → String) : Res α → String
   | .ok a => f a
